@@ -6,7 +6,7 @@ from props.c02 import bits
 import dbutil
 
 PROPS = ('GambitV.Props.C04', 'GambitV.C04')
-TIE = [('GambitV.Tie.PyRefDb', 'GambitV.Tie.Py'), ('GambitV.Tie.PyQueryFlow', 'GambitV.Tie.Py'), ('GambitV.Tie.PyLocate', 'GambitV.Tie.Py'), ('GambitV.Tie.PyLoadFlow', 'GambitV.Tie.Py')]
+TIE = [('GambitV.Tie.PyRefDb', 'GambitV.Tie.Py'), ('GambitV.Tie.PyQueryFlow', 'GambitV.Tie.Py'), ('GambitV.Tie.PyLocate', 'GambitV.Tie.Py'), ('GambitV.Tie.PyLoadFlow', 'GambitV.Tie.Py'), ('GambitV.Tie.PyClassFacts', 'GambitV.Tie.Py'), ('GambitV.Tie.PyHdf5Reader', 'GambitV.Tie.Py')]
 RULE = ('scratch genome sets (2..9 genomes, built with the repo\'s own models) x signature files whose IDs are a permuted / padded superset, or an '
         'incomplete subset, of the genome IDs, for each of the four identifier attributes; metadata naming no / an invalid attribute; a genome '
         'lacking the attribute; directory listings (all small combinations of .gdb/.db/.gs/.h5/other names incl. dot-files and double extensions); '
@@ -145,6 +145,20 @@ def run(ctx):
 			if cnt % ctx.q(3, 1) == 0:
 				sub({'kind': 'locate', 'names': list(combo)}, 'locate')
 			cnt += 1
+	# larger databases (beyond any block / batch threshold of a few dozen signatures): unrelated signatures in front of, between and behind the
+	# genomes' own, in file order or block-wise shuffled; the SAME loaded database queried several times with chunk sizes that give one, three
+	# and many chunks (a reader that keeps state between reads shows on the second query or on the third chunk)
+	for j in range(ctx.q(5, 40)):
+		n = rng.choice([40, 70, 101])
+		attr = rng.choice(ATTRS)
+		sigs = [_mk_sig(rng) for _ in range(n)]
+		extra = [_mk_sig(rng) for _ in range(3)]
+		blocks = [[('g', i) for i in range(a, min(a + 35, n))] for a in range(0, n, 35)]
+		if j % 2 == 1:
+			rng.shuffle(blocks)
+		entries = [('x', 0)] + [e for b_ in blocks[:1] for e in b_] + ([('x', 1)] if j % 3 == 0 else []) + [e for b_ in blocks[1:] for e in b_] + [('x', 2)]
+		sub({'kind': 'load', 'attr': attr, 'n': n, 'sigs': sigs, 'extra': extra, 'via': rng.choice(['dir', 'files']), 'file': entries,
+		     'queries': [_mk_sig(rng) for _ in range(2)], 'chunk': 1000, 'requery': [33, 1000, 7]}, 'load-large-requery')
 	for j in range(ctx.q(320, 2500)):
 		if not ctx.time_left(0.9):
 			break
